@@ -167,6 +167,7 @@ class Runner:
 
     def run(self, fn, args=(), kwargs=None, time_features=None, owned=None, parse_time=None):
         it = self.interp
+        it.close_generators()          # generators left half-consumed by an earlier run
         it.events = []
         it.live = X.TRUE
         it.steps = 0
